@@ -128,6 +128,7 @@ def run_case(spec, ctx):
     moving = not (layout != "hanging" and rng.random() < 0.2)     # some large-amplitude systems start at rest
     model, poses, vels = consgen.random_model(rng, fam, nb, springs=springs, moving=moving,
                                               layout="hanging" if layout == "hanging" else "random")
+    ctx.cls("springs:compliance_form" if any(sp.get("compliance") for sp in model["springs"]) else "springs:force_form_only")
     model["layout"] = layout
     states = consgen.state_arrays(model, poses, vels)
     t0 = float(np.round(rng.normal(), 3)) if rng.random() < 0.4 else 0.0
